@@ -271,7 +271,8 @@ def probe_read(path):
 
 
 def _exc_text(e):
-    return "%s: %s" % (type(e).__name__, str(e)[:100].replace(CTL.root or "\0", ""))
+    txt = str(e).replace(CTL.root or "\0", "")
+    return "%s: %s" % (type(e).__name__, re.sub(r"\btmp[a-z0-9_]{8}\b", "<tmp>", txt)[:100])
 
 
 def _point_sig(name):
